@@ -6,7 +6,7 @@ READY = True
 META = {
     "technique": "Lean 4 proof (block-stack driver with LoadBlocks / parent switch / depth cursor / BlockState::Replace / recursion-limit accounting refines a stack-free specification for every environment of the fragment and every fuel; termination, cycle, double-extends, missing-template, include and import theorems) + differential correspondence of the model with the real engine on enumerated and sampled template environments",
     "category": "proof",
-    "text": "Kernel-checked theorems about MJ/Model/Blocks.lean (transcription of LoadBlocks, the end-of-instructions parent switch, call_block incl. self.name() and required blocks, perform_super emitted and captured, perform_include, import/from-import codegen, loops, macro calls, variable frames, the undefined behaviour (printing / attribute access / iteration of undefined values per mode, tables regenerated from utils.rs and vm/mod.rs), the auto-escape mode (each template's initial mode as the default callback derives it from the name — extension table regenerated from defaults.rs; include/import switch to the included template's own mode and back, blocks / super() / macros / the parent layout reached through extends keep the current mode, {% autoescape %} blocks; write_escaped for Html with the regenerated escape table and for Json) and the recursion limit = outer_stack_depth + frames with INCLUDE_/MACRO_RECURSION_COST regenerated from the sources): blocks_refine_spec — for every environment whose templates are built from text, variables, set, macros, block tags, self.name(), super() (both also captured into variables), required blocks, conditional extends (executed or not, anything before/behind it), include (names, lists, ignore missing; included templates being inheritance chains of their own), import/from-import, loops and macro calls, with well-founded block nesting, and for every fuel, the stateful driver returns exactly the output or error chain of the specification (no block stacks, no cursor, no capture stack, no loaded set); corollaries block_renders_most_derived, super_goes_one_up, untouched_falls_through, child_text_discarded; render_block_most_derived / render_block_on_fresh_state (the State::render_block entry points), rendering_terminates (the recursion limit, not the model's fuel, bounds every nest; the driver runs with exactly the proven fuel), extends_terminates / cycle_is_detected_error, include_cycle_errors (include cycles end in BadInclude…InvalidOperation), double_extends_error, missing_is_error_not_truncation, include_first_existing, import_exports_toplevel, import_of_extending_template. The model is tied to /repo by rendering every generated environment (all 1- and 2-template block assignments exhaustively, sampled chains of up to 4 templates with include/import/self-call snippets at top level, in loops, macros and blocks, static/dynamic/conditional extends, captured super, required blocks, inheritance and include cycles, double extends, missing templates) with the real engine in supervised child processes (hang / stack overflow = failure) and comparing output or the exact error-kind chain with the Lean model; template names carry mixed extensions (.html .txt .json .xml .js .htm .yaml, with .j2/.jinja suffixes) and the variable values contain the characters the modes treat differently; the Lean specification itself is evaluated on every case inside the fragment, an independent substitution-style spec in Python is the oracle, and a metamorphic oracle checks for every case that a wrapper template of another mode that only includes t0 renders exactly what t0 renders on its own.",
+    "text": "Kernel-checked theorems about MJ/Model/Blocks.lean (transcription of LoadBlocks, the end-of-instructions parent switch, call_block incl. self.name() and required blocks, perform_super emitted and captured, perform_include, import/from-import codegen, loops, macro calls, variable frames, the undefined behaviour (printing / attribute access / iteration of undefined values per mode, tables regenerated from utils.rs and vm/mod.rs), the auto-escape mode (each template's initial mode as the default callback derives it from the name — extension table regenerated from defaults.rs; include/import switch to the included template's own mode and back, blocks / super() / macros / the parent layout reached through extends keep the current mode, {% autoescape %} blocks; write_escaped for Html with the regenerated escape table and for Json) and the recursion limit = outer_stack_depth + frames with INCLUDE_/MACRO_RECURSION_COST regenerated from the sources): blocks_refine_spec — for every environment whose templates are built from text, variables, set, macros, block tags, self.name(), super() (both also captured into variables), required blocks, conditional extends (executed or not, anything before/behind it), include (names, lists, ignore missing; included templates being inheritance chains of their own), import/from-import, loops and macro calls, with well-founded block nesting, and for every fuel, the stateful driver returns exactly the output or error chain of the specification (no block stacks, no cursor, no capture stack, no loaded set); corollaries block_renders_most_derived, super_goes_one_up, untouched_falls_through, child_text_discarded; render_block_most_derived / render_block_on_fresh_state (the State::render_block entry points), rendering_terminates (the recursion limit, not the model's fuel, bounds every nest; the driver runs with exactly the proven fuel), extends_terminates / cycle_is_detected_error, include_cycle_errors (include cycles end in BadInclude…InvalidOperation), double_extends_error, missing_is_error_not_truncation, include_first_existing, include_ignore_missing_forgives_only_missing (a template lookup has three outcomes — found / missing / load error of its own kind — and only `missing` lets the next candidate be tried or is forgiven by ignore missing), import_exports_toplevel, import_of_extending_template. The model is tied to /repo by rendering every generated environment (all 1- and 2-template block assignments exhaustively, sampled chains of up to 4 templates with include/import/self-call snippets at top level, in loops, macros and blocks, static/dynamic/conditional extends, captured super, required blocks, inheritance and include cycles, double extends, missing templates) with the real engine in supervised child processes (hang / stack overflow = failure) and comparing output or the exact error-kind chain with the Lean model; template names carry mixed extensions (.html .txt .json .xml .js .htm .yaml, with .j2/.jinja suffixes) and the variable values contain the characters the modes treat differently; the Lean specification itself is evaluated on every case inside the fragment, an independent substitution-style spec in Python is the oracle, and a metamorphic oracle checks for every case that a wrapper template of another mode that only includes t0 renders exactly what t0 renders on its own.",
     "design_ref": "DESIGN.md §3 C06",
     "level_note": "Trusted: Lean kernel; hand transcription of vm/mod.rs (LoadBlocks, end of instructions, call_block, perform_super, perform_include, ExportLocals, macro calls), vm/state.rs (BlockStack, with_execution_state), vm/context.rs (depth accounting) and the Import/FromImport/Extends/Block code generation into MJ/Model/Blocks.lean, validated differentially (not proved) on ~1.6e4 (quick) / ~1.4e5 (thorough) environments; the pretty-printer from abstract templates to Jinja source in harness/src/bin/c06.rs. Outside the proven fragment (validated by the correspondence only): super() at the top level of an included template (the engine hands the includer's current block name into the include), an autoescape block directly inside another one, block references from a block to a lower-numbered block or from inside a macro, extends inside loops/macros/blocks, macro closures over enclosing locals. The specification threads variable frames exactly like the engine (it abstracts from the block machinery, not from variable scoping).",
 }
@@ -97,7 +97,8 @@ def parse_case(line):
         for _ in range(tk.num()):
             n = tk.num()
             blocks[n] = tk.items()
-        env.append((layout, blocks, mode_of_name("t." + ext)))
+        ext, _, broken = ext.partition("!")
+        env.append((layout, blocks, mode_of_name("t." + ext), broken or None))
     return fam, env
 
 
@@ -128,6 +129,15 @@ def fmt(mode, s):
     if mode == "json":
         return json.dumps(s, ensure_ascii=False)
     return s
+
+
+def load_error(env, t):
+    """what looking up template t reports when the name exists but cannot be loaded (None: loads fine).
+    `ignore missing` never applies to these: the template is not missing."""
+    kind = env[t][3]
+    if kind is None:
+        return None
+    return {"s": "SyntaxError@t%d" % t, "r": "InvalidOperation", "c": "BadSerialization"}[kind]
 
 
 class SpecErr(Exception):
@@ -162,6 +172,8 @@ class Spec:
         return self.root_ctx.get(v)
 
     def render(self):
+        if load_error(self.env, 0):
+            raise SpecErr(load_error(self.env, 0))
         self.mode = self.env[0][2]
         self.root_scopes = [{}]
         return "".join(self.template(0, self.root_scopes, False, 0))
@@ -175,6 +187,8 @@ class Spec:
 
     def render_block_fresh(self, n):
         """Template::new_state().render_block: only the template's own blocks, no context"""
+        if load_error(self.env, 0):
+            raise SpecErr(load_error(self.env, 0))
         self.mode = self.env[0][2]
         self.root_ctx = {}
         defs = {k: [b] for k, b in self.env[0][1].items()}
@@ -211,6 +225,8 @@ class Spec:
                         raise SpecErr("InvalidOperation")  # inheritance cycle
                     if it[3] >= len(self.env):
                         raise SpecErr("TemplateNotFound")
+                    if load_error(self.env, it[3]):
+                        raise SpecErr(load_error(self.env, it[3]))
                     extended.add(it[3])
                     parent = it[3]
                     # from here on the parent's definitions are known (behind the tag nothing
@@ -252,6 +268,9 @@ class Spec:
     def include(self, names, ign, scopes, silent, depth):
         missing = False
         for t in names:
+            if t < len(self.env) and load_error(self.env, t):
+                # the name exists but cannot be loaded: that is not "missing"
+                raise SpecErr(load_error(self.env, t))
             if t < len(self.env):
                 # the included template renders as it would on its own: in the mode of its name
                 saved, self.mode = self.mode, self.env[t][2]
@@ -504,7 +523,7 @@ def run(r):
     r.rule = ("templates named t<i>.<ext> with mixed extensions; every assignment of {absent, override, super-before, super-after} to 3 blocks (one nestable) for chains of 1 and 2 "
               "templates (exhaustive), seeded random chains of 1..4 templates with static/dynamic/conditional extends, the same "
               "with 1-2 include/import/self-call snippets (30 kinds) at top level / in blocks / loops / macros, plus enumerated auto-escape mode crossings (includer x included x placement x include/import/from-import, child x parent for extends/super), inheritance "
-              "cycles, include cycles, double extends, missing templates and non-string template names; every case carries an environment configuration (add_template vs loader-backed, default vs custom delimiters, plain names vs directories + path-join callback with relative references, undefined behaviour lenient/chainable/semi-strict/strict) and is rendered through three entry points (Template::render, render_captured + State::render_block, new_state + render_block); a case is non-trivial when it executes an extends, "
+              "cycles, include cycles, double extends, missing templates, templates that exist but cannot be loaded (syntax errors, loader errors; from include lists at every position, extends, import, from-import, through chains, as the rendered template) and non-string template names; every case carries an environment configuration (add_template vs loader-backed, default vs custom delimiters, plain names vs directories + path-join callback with relative references, undefined behaviour lenient/chainable/semi-strict/strict) and is rendered through three entry points (Template::render, render_captured + State::render_block, new_state + render_block); a case is non-trivial when it executes an extends, "
               "include or import")
     r.assumptions = [
         "template/block/variable names are the harness' canonical t<i>.<ext> (optionally in directories d<k>/ with relative references resolved by the documentation's path-join callback) / b<n> / v<n>",
